@@ -435,8 +435,8 @@ func cmdCheck(id, tier string) int {
 	if ok, msg := determinismSample(id, master, tmp); !ok {
 		infra = append(infra, msg)
 	}
-	if id == "C20" {
-		rs := raceSupplement(tier, master, known)
+	if id == "C20" || id == "C19" {
+		rs := raceSupplement(id, tier, master, known)
 		raceEvidence = rs.evidence
 		for _, l := range rs.lines {
 			fmt.Println(l)
@@ -571,9 +571,10 @@ func outRoot() string {
 // RaceReplay identifies a report of the race supplement: the seed of the real-goroutine workload
 // and the signature (first repository frame of each conflicting access) to look for.
 type RaceReplay struct {
-	Seed      int64  `json:"seed"`
-	Seconds   int    `json:"seconds"`
-	Signature string `json:"signature"`
+	Seed      int64    `json:"seed"`
+	Seconds   int      `json:"seconds"`
+	Signature string   `json:"signature"`
+	Args      []string `json:"args,omitempty"`
 }
 
 func replayDir(id string) string {
